@@ -45,7 +45,7 @@ def main():
     res['demo_patched_tail'] = out[-400:]
     res['checks'] = {}
     for c in checks:
-      cenv = dict(os.environ, DINOSAUR_REPO=wt)
+      cenv = dict(os.environ, DINOSAUR_REPO=wt, VERIF_EVIDENCE_DIR=os.path.join(VERIF, 'work', 'seed_evidence'))
       rc, out = sh([os.path.join(VERIF, 'check'), c, tier], cwd=VERIF, env=cenv)
       lines = [l for l in out.split('\n') if l.startswith(('VIOLATION', 'DETAIL', 'OK ', 'KNOWN', 'INFRA'))]
       res['checks'][c] = dict(rc=rc, lines=[l[:600] for l in lines[-4:]])
